@@ -135,7 +135,7 @@ VARIANTS: list[Variant] = [
     V('b-wc-matchbase-mask', 'break', ['C14', 'C10'], W, "        self.flags = self.flags & (_wcparse.FLAG_MASK ^ MATCHBASE)", "        self.flags = self.flags & _wcparse.FLAG_MASK", '_parse_flags|possibly-unbound', "MATCHBASE reaches the parser without PATHNAME"),
     V('b-wc-skip-count', 'break', ['C14', 'C15'], W, "                    else:\n                        self._skipped += 1\n                        value = self.on_skip(base, name)", "                    else:\n                        value = self.on_skip(base, name)\n                        if value is None:\n                            self._skipped += 1", 'file-loop-routing', "get_skipped() undercounts when on_skip returns a value"),
     V('b-wc-hidden', 'break', ['C14'], W, "        if valid and (not self.show_hidden and util.is_hidden(fullpath)):\n            valid = False\n        return self.on_validate_file(base, name) if valid else valid", "        if valid and (self.show_hidden and util.is_hidden(fullpath)):\n            valid = False\n        return self.on_validate_file(base, name) if valid else valid", '_valid_file', "hidden files are returned without HIDDEN"),
-    V('b-wc-prune-rebind', 'break', ['C14'], W, "                    if not self._valid_folder(base, name):\n                        dirs.remove(name)", "                    if not self._valid_folder(base, name):\n                        dirs = [d for d in dirs if d != name]", 'rebound', "excluded folders are still descended"),
+    V('b-wc-prune-rebind', 'break', ['C14'], W, "                    if not self._valid_folder(base, name):\n                        dirs.remove(name)", "                    if not self._valid_folder(base, name):\n                        dirs = [d for d in dirs if d != name]", 'remove-condition', "excluded folders are still descended"),
     V('b-wc-file-pathname', 'break', ['C14'], W, "                self.file_check = self._compile_wildcard(file_pattern, self.file_pathname)", "                self.file_check = self._compile_wildcard(file_pattern, self.dir_pathname)", 'pathname-arguments', "FILEPATHNAME is ignored for the file pattern"),
     V('b-kill-poll', 'break', ['C15'], W, "                        if value is not None:\n                            yield value\n\n                    if self.is_aborted():\n                        break", "                        if value is not None:\n                            yield value", 'loop[files]', "after kill() the rest of the directory is still yielded"),
     V('b-kill-poll-dirs', 'break', ['C15'], W, "                if self.is_aborted():  # pragma: no cover\n                    break", "                if self.is_aborted() and not dirs:  # pragma: no cover\n                    continue", 'loop[dirs[:]]', "kill() from on_validate_directory does not stop the pruning loop"),
